@@ -300,9 +300,37 @@ pub fn run(tier: &str) -> i32 {
                    "bodies": bodies, "ingestion_budgets": budgets, "upgrade_arguments": ups, "continuation_events": cont}),
         );
     }
+    // fetch-protocol phases: an upgrade with a request outstanding, with partial pages
+    // stored, with a complete response stored (schedule explorer of C13, probe comparison on)
+    let sched_parts: Vec<(u32, usize, usize)> = if quick { vec![(2, 2, 3), (1, 1, 2)] } else { vec![(2, 2, 5), (2, 3, 4), (1, 2, 4)] };
+    for (theta, p, dev) in sched_parts {
+        let m = crate::sched::SchedModel {
+            net: Network::Regtest,
+            theta,
+            pool: crate::sched::Pool::standard(Network::Regtest, p),
+            max_deviations: dev,
+            max_depth: 60,
+            hb_budget: None,
+            prop: "C09",
+            liveness: true,
+            upgrade_transparency: true,
+        };
+        let e = explore(&m, &Limits::new(3, if quick { 55 } else { 6000 }));
+        rep.absorb(
+            &format!("SCHED+Upgrade theta={} follow_ups={} deviations<={}", theta, p, dev),
+            e,
+            json!({"threshold": theta, "follow_up_pages": p, "max_deviations": dev,
+                   "oracle": "all probes equal across the upgrade; next request is initial; a fault-free suffix syncs the pool"}),
+        );
+    }
+    rep.floor("upgrades_with_a_request_outstanding", 5);
+    rep.floor("upgrades_with_partial_pages_stored", 2);
+    rep.floor("upgrades_with_a_complete_response_stored", 2);
+    rep.floor("initial_requests_after_reject_or_upgrade", 10);
+    rep.floor("liveness_suffixes_checked", 100);
     rep.rule = "LEDGER/TREE histories with sliced ingestion; one upgrade (no argument / empty / new threshold / lazy fees) at every message boundary; across the upgrade the complete probe set and the complete logical state (syncing flags, per-block metrics and overridden config masked) must be identical; for up to k further events the probe answers must equal those of the run in which the upgrade is replaced by the plain set_config it carries".into();
     rep.bounds = json!({"tier": tier});
-    rep.assume("upgrades with a parked request / stored partial pages (heartbeat protocol phases) are explored by C13, which applies the same before/after comparison there");
+    rep.assume("heartbeat protocol phases (request outstanding, partial pages stored, complete response stored) are explored with the schedule explorer (same model as C13) with the probe comparison switched on");
     rep.assume("stable memory is the native vector memory; the wasm heap is not modelled (State is rebuilt from the serialised bytes exactly as in post_upgrade)");
     rep.floor("probes_compared_across_upgrade", 10_000);
     rep.floor("upgrades_mid_ingestion", 20);
